@@ -106,7 +106,7 @@ def other_schemes(rng, g):
     def r(x, kind):
         if x not in ren:
             k = len(ren)
-            ren[x] = rng.choice(['urn:%s:%d', 'mailto:%s%d@example.org', 'ftp://files.example.org/%s/%d', 'tag:example.org,2024:%s%d']) % (kind, k) \
+            ren[x] = rng.choice(['urn:%s:%d', 'mailto:%s%d@example.org', 'ftp://files.example.org/%s/%d', 'tag:example.org,2024:%s%d', 'x:%s%d', 'a1+b.c-d:%s/%d']) % (kind, k) \
                 if rng.random() < 0.5 else x
         return ren[x]
     out = []
@@ -252,6 +252,35 @@ def run(ctx):
                     hit.add(fid)
                 else:
                     viol.append({"what": "shex_graph(%s) raised %s: %s" % (fmt, r[1], r[2]), "where": obs["where"], **pipeline.case_json(g, cfg)})
+    # ---------------- (b3) several calls on ONE Shaper: no order of shex_graph / profile_graph calls may raise
+    stats["call_sequences"] = 0
+    SEQS = [('shex', 'profile'), ('profile', 'profile'), ('profile', 'shex', 'profile'), ('shex', 'shacl', 'profile', 'shex'), ('shacl', 'shacl')]
+    for i, (g, cfg) in enumerate(cases[: (40 if ctx.tier == "quick" else 400)]):
+        nt = to_nt(g)
+        kw = impl.shaper_kwargs(cfg)
+        th = cfg['th'][0] / cfg['th'][1]
+        seq = SEQS[i % len(SEQS)]
+        def go():
+            sh = Shaper(raw_graph=nt, input_format=C.NT, **kw)
+            for j, what in enumerate(seq):
+                go.at = j
+                if what == 'profile':
+                    sh.profile_graph(string_output=True)
+                else:
+                    sh.shex_graph(string_output=True, acceptance_threshold=th, output_format=C.SHEXC if what == 'shex' else C.SHACL_TURTLE)
+        go.at = 0
+        r = call(go)
+        stats["call_sequences"] += 1
+        stats["pipeline_calls"] += len(seq)
+        if r is not None:
+            stats["exceptions"][r[1]] = stats["exceptions"].get(r[1], 0) + 1
+            obs = {"kind": "exception", "exc": r[1], "msg": r[2], "where": r[3] if len(r) > 3 else "", "cfg": cfg, "triples": g, "call": "sequence " + "/".join(seq)}
+            fid = F.match(kf, obs)
+            if fid:
+                hit.add(fid)
+            else:
+                viol.append({"what": "call %d of the sequence %s on one Shaper raised %s: %s" % (go.at + 1, " -> ".join(seq), r[1], r[2]), "where": obs["where"],
+                             "sequence": list(seq), **pipeline.case_json(g, cfg)})
     # ---------------- (c) other accepted configurations: every input syntax, shape maps, empty target list
     import rdflib
     stats["syntax_calls"] = {}
@@ -318,5 +347,6 @@ def run(ctx):
                            "orders x 3 OR configurations, fed to MergeableConstraints.merge_group in-process; (b) C01 generator + adversarial mixes (IRI and "
                            "blank-node values with/without classes, non-target classes, nodes without outgoing triples, one-instance classes, "
                            "language tags) x accepted configurations x {ShExC, SHACL} x {shex_graph, profile_graph}; (b2) the same with disjunctions enabled "
-                           "(with / without allow_redundant_or) and with predicates, classes, object IRIs and datatypes of the schemes urn:, mailto:, ftp:, tag:" % ((2, 3) if ctx.tier == "quick" else (3, 4)),
+                           "(with / without allow_redundant_or) and with predicates, classes, object IRIs and datatypes of the schemes urn:, mailto:, ftp:, tag:, a "
+                           "one-letter scheme and one with digits / + / . / -; (b3) sequences of shex_graph / profile_graph calls on one Shaper" % ((2, 3) if ctx.tier == "quick" else (3, 4)),
                            DEPS)
